@@ -86,6 +86,8 @@ C09_WireReassembles == Is("end") => /\ Obs.wire_consistent /\ Obs.wire_content_o
                                     /\ (Obs.complete => Obs.wire_prefix = Obs.written)
 
 (* ---- C10: no datagram above the configured MTU ---- *)
+(* ("openparity" marks a parity packet above the MTU in force whose group contains a data packet sent under a larger, earlier  *)
+(* MTU: SetMtu accepted a smaller value while the FEC group was open -- repaired in the library, so it is judged like any other) *)
 C10_LenWithinMtu == Genuine /\ Obs.mtu > 0 => Obs.len <= Obs.mtu /\ Obs.len > 0
 
 (* ---- C19: out-of-band messages ---- *)
